@@ -199,3 +199,62 @@ func zzPipelineOrders(n int, both bool) {
 		zz.Assert("reference-order-independent-of-map-iteration-order", refs1[i] == refs2[i])
 	}
 }
+
+// HarnessC01Namespaced: the pipeline composer with namespaced composed
+// resources (the function puts metadata.namespace on what it desires): three
+// reconciles of a fresh XR. The resources created by the first are found
+// again by the second - none is created twice, none is left unreferenced -
+// and the third changes nothing.
+//
+//gosym:harness
+//gosym:cover created quiescent
+func HarnessC01Namespaced() {
+	n := zz.Bound(2, 3)
+	s := kube.New()
+	zzSetupComposedN(s, 0, 0, "", false)
+	desired := make([]bool, n)
+	for i := range desired {
+		desired[i] = i == 0 || zz.Bool("desired"+string(rune('0'+i)))
+	}
+	runner := &zzRunner{steps: []zzStep{{desired: desired, namespace: "team-a"}}}
+	c := NewFunctionComposer(s, s, runner)
+	req := CompositionRequest{Revision: zzRevision(1)}
+	s.OnMutate = zzLeakInvariant(s)
+	_, err := c.Compose(context.Background(), zzReadXR(s), req)
+	zz.Assert("first-reconcile-succeeds", err == nil)
+	want := 0
+	for _, d := range desired {
+		if d {
+			want++
+		}
+	}
+	zz.Cover("created")
+	zz.Assert("one-composed-resource-per-desired-name", len(zzStoredComposed(s)) == want)
+	names := map[string]string{}
+	for _, cd := range zzStoredComposed(s) {
+		names[cd.resName] = cd.name
+	}
+	_, err = c.Compose(context.Background(), zzReadXR(s), req)
+	zz.Assert("second-reconcile-succeeds", err == nil)
+	zz.Assert("no-composed-resource-created-twice", len(zzStoredComposed(s)) == want)
+	for _, cd := range zzStoredComposed(s) {
+		zz.Assert("composed-resource-name-never-changes", names[cd.resName] == cd.name)
+	}
+	zz.Assert("one-reference-per-desired-resource", len(zzStoredRefNames(s)) == want)
+	before := 0
+	for _, w := range s.Writes(false) {
+		if w.Effect {
+			before++
+		}
+	}
+	_, err = c.Compose(context.Background(), zzReadXR(s), req)
+	zz.Assert("third-reconcile-succeeds", err == nil)
+	after := 0
+	for _, w := range s.Writes(false) {
+		if w.Effect {
+			after++
+		}
+	}
+	zz.Cover("quiescent")
+	zz.Assert("reconciling-a-converged-xr-changes-nothing", after == before)
+}
